@@ -15,7 +15,8 @@ use crate::c01::{self, style_of};
 pub const RULE: &str = "rounds of 2..64 simultaneous clients on one in-process listen() server (unix path, abstract \
 unix, TCP; worker limit 100), each pipelining a random C01 request sequence whose tokens carry the client's number, \
 written in random segments with 0-5 ms pauses; in the same round up to 4 misbehaving peers are held open (idle \
-after one call, connected-but-silent, half a message then nothing, a malformed message, 60 pipelined requests then gone without reading, thousands of introspection requests never read). Oracle: each client's \
+after one call, connected-but-silent, half a message then nothing, a malformed message, 60 pipelined requests then gone without reading, thousands of introspection requests never read, a legal request nested 120 deep); \
+at the end of a round the idle and the silent peers make a call of their own (in one round of eight after sitting for 250 ms). Oracle: each client's \
 reply stream, read to EOF after a sentinel and half-close, satisfies the C01 reply-stream checker for its own \
 requests (so a reply carrying another client's token, a missing or a surplus reply is a failure). A client that \
 does not complete while the misbehaving peers are open but completes once they are closed - in two consecutive \
@@ -42,6 +43,9 @@ pub enum Bad {
     VanishAfterRequests,
     /// pipelines thousands of introspection requests and never reads (the service's writes block)
     FloodNoRead,
+    /// one legal request whose parameters are nested 120 objects deep (below the JSON decoder's limit
+    /// of 128), then idle
+    DeepNesting,
 }
 
 #[derive(Clone, Debug)]
@@ -85,6 +89,7 @@ fn round_from(v: &Value) -> Round {
                     "Malformed" => Some(Bad::Malformed),
                     "VanishAfterRequests" => Some(Bad::VanishAfterRequests),
                     "FloodNoRead" => Some(Bad::FloodNoRead),
+                    "DeepNesting" => Some(Bad::DeepNesting),
                     _ => None,
                 })
                 .collect()
@@ -168,7 +173,7 @@ fn client_run(addr: &str, c: &Client, number: usize) -> Result<(), Fail> {
 }
 
 pub enum BadHandle {
-    Peer(Peer),
+    Peer(Peer, Bad, std::time::Instant),
     Raw(vl_model::sock::Conn),
 }
 
@@ -232,9 +237,21 @@ fn open_bad(addr: &str, b: Bad, n: usize) -> Option<BadHandle> {
                 }
                 Bad::HalfMessage => p.send(b"{\"method\":\"org.verif.test.Echo\",\"parameters\":{\"token\":\"ha"),
                 Bad::Malformed => p.send(b"{\"method\":42}\0"),
+                Bad::DeepNesting => {
+                    let mut x = String::new();
+                    for _ in 0..120 {
+                        x.push_str("{\"a\":");
+                    }
+                    x.push('1');
+                    for _ in 0..120 {
+                        x.push('}');
+                    }
+                    p.send(format!("{{\"method\":\"org.verif.test.Echo\",\"parameters\":{{\"token\":\"deep-{}\",\"n\":1,\"x\":{}}}}}\0", n, x).as_bytes());
+                    let _ = p.wait_finals(1, Duration::from_secs(5));
+                }
                 _ => {}
             }
-            Some(BadHandle::Peer(p))
+            Some(BadHandle::Peer(p, b, std::time::Instant::now()))
         }
     }
 }
@@ -289,6 +306,35 @@ pub fn run_round(addrs: &[String; 3], r: &Round) -> Result<RoundOutcome, Fail> {
         }
         outcome = Some(if reports.len() == n && !r.bad.is_empty() { RoundOutcome::BlockedUntilBadClosed(n - done_while_bad_open) } else { RoundOutcome::Hung });
     }
+    // the idle and the silent peers are connections too: after sitting there they make a call and get
+    // their own reply (in one round out of eight they first sit for at least 250 ms)
+    if outcome.is_none() && reports.iter().all(|r| r.res.is_ok()) {
+        let linger = hash64(&round_json(r).to_string()) % 8 == 0;
+        for (k, b) in bad.iter_mut().enumerate() {
+            let BadHandle::Peer(p, kind, since) = b else { continue };
+            if !matches!(kind, Bad::IdleAfterCall | Bad::Silent) {
+                continue;
+            }
+            if linger {
+                let need = Duration::from_millis(250);
+                if since.elapsed() < need {
+                    std::thread::sleep(need - since.elapsed());
+                }
+            }
+            let tok = format!("idle-follow-up-{}", k);
+            p.send(&encode(&json!({"method": "org.verif.test.Echo", "parameters": {"token": tok, "n": 5}}), Style::Compact));
+            match p.wait_piece(|v| v["parameters"]["token"] == tok.as_str(), LONG) {
+                Wait::Reached => {}
+                Wait::Eof => {
+                    return Err(Fail::new(
+                        "listen[concurrent]/idle-connection-closed",
+                        format!("a peer that had been sitting idle for {} ms ({:?}) sent a request and found its connection closed by the service", since.elapsed().as_millis(), kind),
+                    ))
+                }
+                Wait::Stalled => return Ok(RoundOutcome::Hung),
+            }
+        }
+    }
     drop(bad);
     if reports.len() == n {
         for h in handles {
@@ -312,7 +358,7 @@ pub fn run_round(addrs: &[String; 3], r: &Round) -> Result<RoundOutcome, Fail> {
 fn round_strategy(max_clients: usize) -> impl Strategy<Value = Round> {
     let client = (c01::seq_strategy(alphabet(), 1, 10), prop::collection::vec(any::<u16>(), 0..6), prop::collection::vec(0u8..6, 0..7))
         .prop_map(|((syms, _d, style), cuts, pauses)| Client { syms, style, cuts, pauses });
-    let bad = prop::sample::select(vec![Bad::IdleAfterCall, Bad::Silent, Bad::HalfMessage, Bad::Malformed, Bad::VanishAfterRequests, Bad::FloodNoRead]);
+    let bad = prop::sample::select(vec![Bad::IdleAfterCall, Bad::Silent, Bad::HalfMessage, Bad::Malformed, Bad::VanishAfterRequests, Bad::FloodNoRead, Bad::DeepNesting]);
     (0usize..3, prop::collection::vec(client, 2..=max_clients), prop::collection::vec(bad, 0..=4)).prop_map(|(transport, clients, bad)| Round { transport, clients, bad })
 }
 
@@ -432,6 +478,11 @@ fn quiet_then_idle(quiet: Duration) -> Result<bool, Fail> {
 }
 
 pub fn run(args: &Args) -> ! {
+    // the servers run inside this process: a hostile input that takes the process down must be
+    // attributed to its round, so the rounds run in a journaling child
+    if !vl_model::isolate::is_child() && args.replay.is_none() {
+        vl_model::isolate::supervise(args, "exploration", RULE, "listen/process-death", "c13-round");
+    }
     let mut ctx = Ctx::new(args, "exploration");
     ctx.rule = RULE.into();
     ctx.assumptions = vec![
@@ -443,12 +494,18 @@ pub fn run(args: &Args) -> ! {
         replay(&mut ctx, &v);
         ctx.finish();
     }
+    if let Some(cj) = vl_model::isolate::one_case() {
+        replay(&mut ctx, &json!({"case": cj}));
+        std::process::exit(if ctx.failed() { 1 } else { 0 });
+    }
+    let journal = std::cell::RefCell::new(vl_model::isolate::Journal::open(0));
     let s = start_servers(ctx.seed);
     let addrs = s.addrs.clone();
     let hung = std::cell::Cell::new(0u32);
     let cases = ctx.tier.pick(400, 6_000);
     let maxc = ctx.tier.pick(24, 64);
     let r = pt::check_with(&mut ctx, "c13", cases, 60, 120_000, round_strategy(maxc), |ctx, round| {
+        journal.borrow_mut().note(&round_json(round));
         match run_round(&addrs, round)? {
             RoundOutcome::Ok { overlapping } => {
                 ctx.case(if overlapping && !round.bad.is_empty() { Some(hash64(&round_json(round).to_string())) } else { None });
@@ -483,6 +540,7 @@ pub fn run(args: &Args) -> ! {
             break;
         }
         ctx.class("quiet-period-then-idle-peers");
+        journal.borrow_mut().note(&json!({"quiet_ms": q, "transport": 0}));
         match quiet_then_idle(Duration::from_millis(*q)) {
             Ok(true) => ctx.case(Some(hash64(&("quiet", k, q)))),
             Ok(false) => {
